@@ -42,6 +42,10 @@ type AuthCfg struct {
 	// AdversaryFromConn: connections with a lower index get the honest servers (an earlier,
 	// regular session of the same or another client), the adversary takes over from this one on.
 	AdversaryFromConn int `json:"adversaryFromConn,omitempty"`
+	// FirstExt is appended to the honest server-first-message: optional extension attributes
+	// after the iteration count (RFC 5802 section 5.1 allows them; a client ignores those it
+	// does not know, and the AuthMessage contains the message as it was sent).
+	FirstExt string `json:"firstExt,omitempty"`
 }
 
 func (a AuthCfg) loginPrompt(i int) []byte {
@@ -417,7 +421,7 @@ func (s *scramSrv) clientFirst(m string) StepOut {
 	if iter <= 0 {
 		iter = 4096
 	}
-	s.first = "r=" + s.nonce + ",s=" + base64.StdEncoding.EncodeToString(s.a.Salt) + ",i=" + strconv.Itoa(iter)
+	s.first = "r=" + s.nonce + ",s=" + base64.StdEncoding.EncodeToString(s.a.Salt) + ",i=" + strconv.Itoa(iter) + s.a.FirstExt
 	s.step = 1
 	return StepOut{Challenge: []byte(s.first), Note: "client-first ok nonce=" + cn}
 }
